@@ -45,6 +45,20 @@ theorem at_fair_liveness (c : Cfg) (e : Env) (w : CW) (hr : Reach c e w) (sched 
 so `at_fair_liveness` is not vacuous -/
 example : Fair rr := rr_fair
 
+/-- **A bound.** If every kind of move recurs within every window of `K` consecutive moves
+(`FairK K`; the round-robin schedule has `K = 7`), the world is settled — all accepted accesses
+answered, control handshake complete, all outgoing buffers taken — after at most
+`K · (2·wmu w + 2)` moves, where `wmu w` weighs the work held anywhere in the world. -/
+theorem at_fair_liveness_bound (c : Cfg) (e : Env) (w : CW) (hr : Reach c e w) (K : Nat)
+    (sched : Nat → HOp) (hf : FairK K sched) :
+    ∃ n, n ≤ K * (2 * wmu w + 2) ∧ SettledC (hrun c e w (pre sched n)) := by
+  obtain ⟨n, hle, hn⟩ := fair_settles_bound K _ w rfl hr sched hf
+  refine ⟨n, Nat.le_trans hle (Nat.mul_le_mul_left K ?_), hn⟩
+  unfold lmu
+  split <;> omega
+
+example : FairK 7 rr := rr_fairK
+
 /-- The same claim without the fairness hypothesis (any schedule of internal moves). -/
 def at_fair_liveness_full : Prop :=
   ∀ (c : Cfg) (e : Env) (w : CW) (sched : Nat → HOp), Reach c e w → (∀ i, (sched i).internal = true) →
